@@ -225,8 +225,13 @@ int main(int argc, char** argv) {
             gen.setPartner(GGeom{}, 0); out.count("A_mixed_collection"); }
         gen.setPartner(A, r.chance(80) ? 55 : 0);
         GGeom B = gen.geom(r.chance(55) ? 2 : 3, false, false);
-        DX t;
-        if (r.chance(45)) { t.exact = true; t.xf = gen.xform(); out.count("map_exact_lattice"); }
+        DX t; bool tieFocus = r.chance(15);
+        if (tieFocus) {   // axis-parallel map with a scale that is not a power of two, grid = 2 or 4 lattice units: odd lattice
+                          // points sit on rounding ties k + 1/2 which binary64 sees as 0.49999999999999994 / 0.5 / 0.5000000000000001
+            double mag = std::pow(10.0, r.range(-3, 9) + r.unit()); t.a = mag; t.d = mag; t.b = 0; t.c = 0;
+            t.tx = r.chance(50) ? 0.0 : mag * (double) r.range(-50, 50); t.ty = r.chance(50) ? 0.0 : mag * (double) r.range(-50, 50);
+            out.count("map_tie_focus"); }
+        else if (r.chance(45)) { t.exact = true; t.xf = gen.xform(); out.count("map_exact_lattice"); }
         else { double mag = std::pow(10.0, r.range(-3, 9) + r.unit()); double th = r.chance(25) ? 0.0 : r.unit() * 6.283185307179586;
             double shear = r.chance(15) ? (r.unit() - 0.5) : 0.0;
             t.a = mag * std::cos(th); t.b = -mag * std::sin(th) + shear * mag; t.c = mag * std::sin(th); t.d = mag * std::cos(th);
@@ -244,7 +249,8 @@ int main(int argc, char** argv) {
         double ext = std::max(maxx - minx, maxy - miny); if (!(ext > 0)) ext = maxAbs > 0 ? maxAbs : 1.0;
         double unit = t.exact ? std::ldexp(1.0, t.xf.k) : std::sqrt(std::fabs(t.a * t.d - t.b * t.c));
         double g; int gm = (int) r.below(100);
-        if (gm < 30) { g = std::pow(10.0, -6.0 + 9.0 * r.unit()) * ext; out.count("grid_random_1e-6..1e3_x_extent"); }
+        if (tieFocus) { g = unit * (r.chance(60) ? 2.0 : 4.0); out.count("grid_tie_focus"); }
+        else if (gm < 30) { g = std::pow(10.0, -6.0 + 9.0 * r.unit()) * ext; out.count("grid_random_1e-6..1e3_x_extent"); }
         else if (gm < 45) { int k = (int) std::floor(std::log10(ext)) + r.range(-6, 3); g = std::pow(10.0, k); out.count("grid_power_of_ten"); }
         else if (gm < 55) { int k = (int) std::floor(std::log2(ext)) + r.range(-20, 10); g = std::ldexp(1.0, k); out.count("grid_power_of_two"); }
         else if (gm < 72) { static const double f[] = {1, 1, 2, 0.5, 3, 1.5, 0.25, 4, 0.1, 10}; g = unit * f[r.below(10)]; out.count("grid_lattice_multiple"); }
